@@ -21,7 +21,7 @@ pub(crate) struct C18 {
     pub id: &'static str,
 }
 
-const TEMPLATES: &[&str] = &["nick_race_unreg", "first_join", "limit_slot", "oper_in_flight", "kick_part_nick", "msg_streams", "nick_race_reg", "invite_join", "password_reg_race", "mixed", "random", "random", "random", "random", "topic_mode_race"];
+const TEMPLATES: &[&str] = &["nick_race_unreg", "first_join", "limit_slot", "oper_in_flight", "kick_part_nick", "msg_streams", "nick_race_reg", "invite_join", "password_reg_race", "mixed", "random", "random", "random", "random", "topic_mode_race", "kill_vs_leave", "leave_vs_nick_claim", "kill_vs_leave", "leave_vs_nick_claim"];
 
 fn esc_lines(v: &[String]) -> String {
     v.join("\u{1e}")
@@ -194,8 +194,11 @@ impl Check for C18 {
                 }
             }
             "random" => {
+                if !regs.is_empty() && r.chance(1, 2) {
+                    g.say(regs[0], "OPER root rootpw");
+                }
                 // model-guided commands of 2-4 connections, all generated against the pre-burst state
-                let kinds = [K::Join, K::Join, K::Part, K::Kick, K::Nick, K::ModeChan, K::ModeChan, K::Privmsg, K::Privmsg, K::Notice, K::Topic, K::Invite, K::Names, K::Who, K::Whois, K::ModeUser, K::Away, K::Lusers, K::List, K::ModeQuery, K::Oper, K::Ison];
+                let kinds = [K::Quit, K::Nick, K::Nick, K::Kill, K::Join, K::Join, K::Part, K::Kick, K::Nick, K::ModeChan, K::ModeChan, K::Privmsg, K::Privmsg, K::Notice, K::Topic, K::Invite, K::Names, K::Who, K::Whois, K::ModeUser, K::Away, K::Lusers, K::List, K::ModeQuery, K::Oper, K::Ison];
                 for &c in regs.iter().take(r.range(2, 4)) {
                     let mut s = vec![];
                     for _ in 0..r.range(1, 3) {
@@ -209,6 +212,49 @@ impl Check for C18 {
                     if !s.is_empty() {
                         scripts.push((c, s));
                     }
+                }
+            }
+            "kill_vs_leave" => {
+                // an operator kills a user who is just leaving / renaming / being killed by somebody else
+                if regs.len() >= 3 {
+                    g.say(regs[0], "OPER root rootpw");
+                    let second_oper = r.chance(1, 2);
+                    if second_oper {
+                        g.say(regs[2], "OPER root rootpw");
+                    }
+                    let ch = "#kl".to_string();
+                    for &c in regs.iter().take(3) {
+                        g.say(c, &format!("JOIN {}", ch));
+                    }
+                    let v = nick_of(&g, regs[1]);
+                    scripts.push((regs[0], vec![format!("KILL {} :first", v), format!("NAMES {}", ch), format!("ISON {} gone", v)]));
+                    let vline = [
+                        "QUIT :leaving".to_string(),
+                        "NICK gone".to_string(),
+                        format!("PART {}", ch),
+                        format!("PRIVMSG {} :last words s{}", ch, num(&mut seqno)),
+                    ][r.below(4)]
+                    .clone();
+                    scripts.push((regs[1], vec![vline, "LUSERS".to_string()]));
+                    let third = if second_oper { format!("KILL {} :second", v) } else { format!("WHOIS {}", v) };
+                    scripts.push((regs[2], vec![third, format!("NAMES {}", ch)]));
+                }
+            }
+            "leave_vs_nick_claim" => {
+                // a user leaves while another one takes over its nickname
+                if regs.len() >= 3 {
+                    let ch = "#lv".to_string();
+                    for &c in regs.iter().take(3) {
+                        g.say(c, &format!("JOIN {}", ch));
+                    }
+                    if r.chance(1, 2) {
+                        g.say(regs[0], &format!("MODE {} +v {}", ch, nick_of(&g, regs[1])));
+                    }
+                    let v = nick_of(&g, regs[0]);
+                    let leave = ["QUIT".to_string(), "QUIT :bye".to_string(), format!("NICK old{}", r.below(3))][r.below(3)].clone();
+                    scripts.push((regs[0], vec![leave]));
+                    scripts.push((regs[1], vec![format!("NICK {}", v), format!("PRIVMSG {} :do you hear me s{}", ch, num(&mut seqno)), format!("NAMES {}", ch)]));
+                    scripts.push((regs[2], vec![format!("PRIVMSG {} :anyone s{}", ch, num(&mut seqno)), format!("NAMES {}", ch), format!("WHOIS {}", v)]));
                 }
             }
             "topic_mode_race" => {
@@ -606,6 +652,7 @@ async fn exec_inner(t: Trace, prop: &'static str) -> Outcome {
     let mut order: Vec<usize> = vec![];
     let mut acc: Vec<TExp> = vec![];
     BEST_FAIL.with(|b| *b.borrow_mut() = None);
+    ENDED.with(|e| *e.borrow_mut() = eof_seen.clone());
     search(&ops, &burst_model_before, &mut idx, &mut order, &mut acc, &streams, &mut nodes, &mut found, n_ops);
     let best_fail = BEST_FAIL.with(|b| b.borrow().clone()).map(|(_, w)| w).unwrap_or_else(|| "no complete order passes the per-command reply checks".to_string());
     if nodes >= NODE_CAP && found.is_empty() {
@@ -645,14 +692,14 @@ async fn exec_inner(t: Trace, prop: &'static str) -> Outcome {
             m
         })
         .collect();
-    let probe_chans = ["#race", "#lim", "#kpn", "#str", "#inv", "#mix", "#fresh0", "#fresh1", "#tm", "#a", "#b", "#c", "#d"];
+    let probe_chans = ["#race", "#lim", "#kpn", "#str", "#inv", "#mix", "#fresh0", "#fresh1", "#tm", "#kl", "#lv", "#a", "#b", "#c", "#d"];
     let mut probes: Vec<(usize, String)> = vec![];
     for &c in &live {
         probes.push((c, "PING final".to_string()));
     }
     if let Some(&c0) = live.iter().find(|&&c| survivors[0].conns[c].registered) {
         probes.push((c0, "LUSERS".to_string()));
-        probes.push((c0, "ISON dup0 dup1 dup2 prize0 prize1 moved mx0 mx1 mx2".to_string()));
+        probes.push((c0, "ISON dup0 dup1 dup2 prize0 prize1 moved mx0 mx1 mx2 gone old0 old1 old2 ann bob cat dan".to_string()));
         for ch in probe_chans {
             if survivors.iter().any(|s| s.chans.contains_key(ch)) {
                 probes.push((c0, format!("NAMES {}", ch)));
@@ -694,6 +741,8 @@ async fn exec_inner(t: Trace, prop: &'static str) -> Outcome {
 const NODE_CAP: usize = 200_000;
 
 thread_local! {
+    /// connections whose session ended during the burst
+    static ENDED: std::cell::RefCell<Vec<bool>> = std::cell::RefCell::new(vec![]);
     static BEST_FAIL: std::cell::RefCell<Option<(usize, String)>> = std::cell::RefCell::new(None);
 }
 
@@ -734,7 +783,34 @@ fn search(
         while oc.len() < model.conns.len() {
             oc.push(vec![]);
         }
-        let discs = match_step(acc, &mut oc);
+        // a session that ended during the burst may have lost relayed lines that were still queued for it
+        // (unread output dies with the session); what it was answered directly stays required
+        let ended = ENDED.with(|e| e.borrow().clone());
+        let srv_prefix = format!(":{} ", model.cfg.name);
+        let adjusted: Vec<TExp> = acc
+            .iter()
+            .map(|te| {
+                let c = te.e.conn();
+                if !ended.get(c).copied().unwrap_or(false) {
+                    return te.clone();
+                }
+                match &te.e {
+                    Exp::Exact { c, line } | Exp::AtLeast1 { c, line } if line.starts_with(':') && !line.starts_with(&srv_prefix) => {
+                        TExp { e: Exp::Optional { c: *c, options: vec![line.clone()] }, props: te.props, props_rank: te.props_rank }
+                    }
+                    Exp::OnePrefix { c, prefix } if prefix.starts_with(':') && !prefix.starts_with(&srv_prefix) => {
+                        TExp { e: Exp::OptionalPrefix { c: *c, prefix: prefix.clone() }, props: te.props, props_rank: te.props_rank }
+                    }
+                    Exp::ModeAnn { c, head, optional, required } if head.starts_with(':') => {
+                        let mut all = optional.clone();
+                        all.extend(required.iter().cloned());
+                        TExp { e: Exp::ModeAnn { c: *c, head: head.clone(), required: vec![], optional: all }, props: te.props, props_rank: te.props_rank }
+                    }
+                    _ => te.clone(),
+                }
+            })
+            .collect();
+        let discs = match_step(&adjusted, &mut oc);
         let extra = oc.iter().enumerate().any(|(c, v)| !v.is_empty() && model.conns.get(c).map_or(true, |x| !x.deaf));
         if !(discs.is_empty() && !extra) {
             let n = discs.len() + oc.iter().map(|v| v.len()).sum::<usize>();
